@@ -304,9 +304,12 @@ static void op(int q) {
     CHECK(s2.occ >= MIN(MIN(a, maximum_), rem), "after discard, require(a) with a <= maximum delivers min(a, rest of the stream) bytes");
     OBS(s2.occ);
 #if !defined(KF_ONLY_D9) && QSEL(Q_DISCARD)
-    REACH(s0.c > 0 && s1.c == 0 && s0.occ > 0, "discard moved data");
+    /* data can only be moved when c > Chunk and c + occ <= maximum + Chunk */
+    REACH(s0.c > 0 && s1.c == 0 && s0.occ + 1 >= (MAXMAX >= 3 ? 3 : MAXMAX), "discard moved data (two bytes or more where the buffer is large enough for that)");
     REACH(s0.c > 0 && s1.c == s0.c, "discard left at most Chunk consumed bytes in place");
-    REACH(s2.occ > s1.occ && s1.c == 0 && s0.c > 0, "refill after a discard that moved data");
+#if MAXMAX >= 1
+    REACH(s2.occ > s1.occ && s1.c == 0 && s0.c > 0, "refill after a discard that moved the window");
+#endif
 #endif
   }
 
